@@ -403,6 +403,8 @@ Definition cases : list (cli_config * cli_outcome) := [
 		"self-import":                     {"a.go": "package b\n\nimport b \"fm/broken/self-import\"\n\nfunc F(IN int) int { return IN + b.X }\n"},
 		"blank-and-dot-import-of-missing": {"a.go": "package b\n\nimport (\n\t_ \"example.com/none/a\"\n\t. \"example.com/none/b\"\n)\n\nfunc F(IN int) int { return IN }\n"},
 		"package-name-with-test-suffix":   {"a.go": "package b_test\n\nfunc F(IN int) int { return IN }\n"},
+		// two directories whose package clauses end in _test (in ordinary files) and whose import paths agree up to the last five bytes
+		"two-test-suffix-packages": {"unslice/a.go": "package checker_test\n\nfunc F(IN int) int { return IN }\n", "underef/a.go": "package checker_test\n\nfunc G(IN int) int { return IN }\n"},
 		"undefined-names":                 {"a.go": "package b\n\nfunc F(IN int) int { x := undefinedFn(IN); return x.y[0] }\n\nfunc H(s string) bool { return len(s) == 0 }\n"},
 	}
 	for name, files := range broken {
@@ -412,10 +414,16 @@ Definition cases : list (cli_config * cli_outcome) := [
 		}
 		for _, exe := range []string{"go-critic", "go-critic-analysis"} {
 			var args []string
+			pat := "./broken/" + name
+			for fn := range files {
+				if strings.Contains(fn, "/") {
+					pat = "./broken/" + name + "/..."
+				}
+			}
 			if exe == "go-critic" {
-				args = []string{"check", "-enableAll", "./broken/" + name}
+				args = []string{"check", "-enableAll", pat}
 			} else {
-				args = []string{"./broken/" + name}
+				args = []string{pat}
 			}
 			out, code, err := common.Run(180*time.Second, base, common.GoEnv(), filepath.Join(bin, exe), args...)
 			runs++
